@@ -204,6 +204,11 @@ pub struct XStats {
     pub completed: usize,
 }
 
+/// development aid on an overloaded machine: VERIF_CAP_SCALE multiplies every wall cap (default 1)
+pub fn cap_scale() -> f64 {
+    std::env::var("VERIF_CAP_SCALE").ok().and_then(|s| s.parse::<f64>().ok()).unwrap_or(1.0)
+}
+
 pub fn explore<S: SeqSpec>(ctx: &Ctx, spec: &S, spec_id: usize, tag: &str, max_len: usize, wall_cap_s: f64, cov: &mut Map<String, Value>) -> XStats {
     let mut frontier: Vec<Node<S>> = vec![Node { seq: vec![], model: spec.init() }];
     let mut st = XStats::default();
